@@ -36,6 +36,7 @@ REPLAY = os.path.join(OUT, "replay")
 if "VERIF_OUT" in os.environ:
     BUILD = os.path.join(OUT, "build")
     os.makedirs(BUILD, exist_ok=True)
+RUNDIR = os.path.join(BUILD, "units", "run_%d" % os.getpid())
 KNOWN = os.path.join(VERIF, "known_findings.txt")
 
 # messages by which Verus reports an undischarged proof obligation (everything else
@@ -236,13 +237,29 @@ def disable_clauses(text, labels):
     return "\n".join(out), n
 
 
+def publish_rundir():
+    """move this process' generated units and diagnostics to build/units/ (last run wins; atomic per file)"""
+    try:
+        if os.path.isdir(RUNDIR):
+            for f in os.listdir(RUNDIR):
+                try:
+                    os.replace(os.path.join(RUNDIR, f), os.path.join(BUILD, "units", f))
+                except OSError:
+                    pass
+            os.rmdir(RUNDIR)
+    except OSError:
+        pass
+
+
 def build_unit(name, twin=False, repo=None):
     mod = load_unit_module(name)
     u = Unit(name, repo=repo)
     u.twin = twin
     mod.build(u)
     text = u.render(getattr(mod, "HEADER_EXTRA", ""))
-    path = os.path.join(BUILD, "units", name + ("_twin" if twin else "") + ".rs")
+    # generated units are written into a directory of THIS process (several checks may run at the same time and share units);
+    # main() moves them to build/units/ at the end (atomic renames) for inspection
+    path = os.path.join(RUNDIR, name + ("_twin" if twin else "") + ".rs")
     os.makedirs(os.path.dirname(path), exist_ok=True)
     with open(path, "w") as f:
         f.write(text)
@@ -534,6 +551,7 @@ def main():
         for u in undecided:
             lines.append("note: also undecided: %s" % u)
     write_evidence(pid, pinfo, tier, seed, results, known_hit, vio_out, undecided, time.time() - t0, reg, foreign, wit_runs, bounded_ok)
+    publish_rundir()
     for l in dict.fromkeys(lines):
         print(l)
     if rc == 0 and not bounded_ok:
